@@ -4,9 +4,11 @@
 //!   pre: new <c> <spec> , …  |  <thread> | <thread> | <thread> ;; <schedule digits>
 //!   thread: [@<c>] op , op , …      (@c = the thread's default collector for its whole life)
 //!   ops: hit <cs> | new <c> <spec> | drop <c> | rebuild | mut <c> <spec>
+//!        | sgd <c> (set_global_default with collector c; the result is logged as `sgd:ok` / `sgd:err`)
 //!        | newr <c> <spec> (a collector whose filter is a REAL reload::Subscriber layer) | rl <c> <spec> (the real `Handle::reload`)
 //!   spec: 30 chars over a (always) n (never) t (sometimes, enabled) f (sometimes, disabled) + `h<k|->`
-//! Output: `<status> ;; <event log> ;; <quiescent observations>`
+//!   schedule `F`: no scheduler — the threads are released together and run freely (stress search)
+//! Output: `<status> ;; <event log> ;; <quiescent observations>`   (observation `gd:<c|->` = who is the global default)
 use std::collections::HashMap;
 use std::sync::{Arc, Condvar, Mutex};
 use std::time::{Duration, Instant};
@@ -119,9 +121,23 @@ thread_local! {
 
 fn hook(name: &'static str) { yield_at(name) }
 
+/// an entry of the event log that is not a scheduling point
+fn log_event(name: &str) {
+    let t = match WORKER.with(|w| w.get()) { Some(t) => t, None => return };
+    let i = OPIDX.with(|o| o.get());
+    SCHED.lock().unwrap().as_mut().unwrap().log.push(format!("{}.{}.{}", t, i, name));
+}
+static FREE: std::sync::atomic::AtomicBool = std::sync::atomic::AtomicBool::new(false);
+static GO: std::sync::atomic::AtomicBool = std::sync::atomic::AtomicBool::new(false);
+
 fn yield_at(name: &str) {
     let t = match WORKER.with(|w| w.get()) { Some(t) => t, None => return };
     let i = OPIDX.with(|o| o.get());
+    if FREE.load(std::sync::atomic::Ordering::SeqCst) {
+        // free run: no scheduling, and no shared lock right before an operation (it would serialise the threads)
+        if name != "op" { SCHED.lock().unwrap().as_mut().unwrap().log.push(format!("{}.{}.{}", t, i, name)); }
+        return;
+    }
     let mut g = SCHED.lock().unwrap();
     {
         let s = g.as_mut().unwrap();
@@ -142,6 +158,7 @@ type Handles = Arc<Mutex<HashMap<usize, Dispatch>>>;
 
 fn run_thread(t: usize, prog: Vec<Vec<String>>, dflt: Option<Dispatch>, handles: Handles) {
     WORKER.with(|w| w.set(Some(t)));
+    if FREE.load(std::sync::atomic::Ordering::SeqCst) { while !GO.load(std::sync::atomic::Ordering::SeqCst) { std::hint::spin_loop(); } }
     let body = || {
         for (i, op) in prog.iter().enumerate() {
             OPIDX.with(|o| o.set(i));
@@ -164,6 +181,12 @@ fn run_thread(t: usize, prog: Vec<Vec<String>>, dflt: Option<Dispatch>, handles:
                     let h = RHANDLES.lock().unwrap().as_ref().unwrap().get(&c).expect("reloadable collector").clone();
                     let (v, hint) = parse_spec(&op[2]);
                     let _ = h.reload(SpecLayer(v, hint));
+                }
+                "sgd" => {
+                    let c: usize = op[1].parse().unwrap();
+                    let d = handles.lock().unwrap().get(&c).expect("collector").clone();
+                    let r = tracing_core::dispatch::set_global_default(d);
+                    log_event(if r.is_ok() { "sgd:ok" } else { "sgd:err" });
                 }
                 "drop" => {
                     let c: usize = op[1].parse().unwrap();
@@ -204,7 +227,9 @@ fn main() {
     std::io::stdin().read_line(&mut line).unwrap();
     let toks: Vec<&str> = line.split_whitespace().collect();
     let sep = toks.iter().position(|t| *t == ";;").expect(";;");
-    let schedule: Vec<usize> = toks.get(sep + 1).map(|s| s.bytes().map(|b| (b - b'0') as usize).collect()).unwrap_or_default();
+    let free = toks.get(sep + 1) == Some(&"F");
+    FREE.store(free, std::sync::atomic::Ordering::SeqCst);
+    let schedule: Vec<usize> = if free { Vec::new() } else { toks.get(sep + 1).map(|s| s.bytes().map(|b| (b - b'0') as usize).collect()).unwrap_or_default() };
     let parts: Vec<&[&str]> = toks[..sep].split(|t| *t == "|").collect();
     let handles: Handles = Arc::new(Mutex::new(HashMap::new()));
     // pre-section (sequential, uncontrolled)
@@ -216,7 +241,7 @@ fn main() {
     }
     let n = parts.len() - 1;
     *SCHED.lock().unwrap() = Some(Sched { granted: None, at_yield: vec![false; n], finished: vec![false; n], log: Vec::new() });
-    tracing_core::callsite::__verif::set_yield_hook(Some(hook));
+    if !free { tracing_core::callsite::__verif::set_yield_hook(Some(hook)); }
     let mut used_cs: Vec<usize> = Vec::new();
     let mut joins = Vec::new();
     for (t, p) in parts[1..].iter().enumerate() {
@@ -265,7 +290,12 @@ fn main() {
             g = CV.wait_timeout(g, deadline - now).unwrap().0;
         }
     };
-    wait_all_parked(Duration::from_secs(2));
+    if free {
+        std::thread::sleep(Duration::from_millis(2));
+        GO.store(true, std::sync::atomic::Ordering::SeqCst);
+    } else {
+        wait_all_parked(Duration::from_secs(2));
+    }
     for &t in &schedule { if t < n { grant(t); } }
     // free run: round robin until everybody has finished
     let mut status = "ok";
@@ -274,7 +304,7 @@ fn main() {
         let all_done = { let g = SCHED.lock().unwrap(); let s = g.as_ref().unwrap(); (0..n).all(|t| s.finished[t]) };
         if all_done { break; }
         let mut any = false;
-        for t in 0..n { if grant(t) { any = true; } }
+        if !free { for t in 0..n { if grant(t) { any = true; } } }
         if !any { std::thread::sleep(Duration::from_millis(5)); }
         if start.elapsed() > Duration::from_secs(8) { status = "DEADLOCK"; break; }
     }
@@ -297,6 +327,11 @@ fn main() {
                 obs.push(format!("{}:{}:{}", c, cs, if got { 1 } else { 0 }));
             }
         }
+    }
+    if status == "ok" {
+        // who is the process-wide default now (asked from this thread, which has no scoped default)
+        let who = tracing_core::dispatch::get_default(|d| d.downcast_ref::<Rec>().map(|r| r.id));
+        obs.push(format!("gd:{}", who.map(|c| c.to_string()).unwrap_or_else(|| "-".into())));
     }
     let wrong = WRONG.lock().unwrap().clone();
     println!("{}{} ;; {} ;; {}", status, if wrong.is_empty() { String::new() } else { format!(" wrong-delivery={}", wrong.join("+")) },
